@@ -4,7 +4,7 @@
   mutants.py confirm <src_dir>            confirm a candidate in a scratch worktree: applies, builds, suite passes, demo fails with / passes without
   mutants.py import <src_dir> <name>      copy patch.diff, demo_test.go, meta.json to /verif/seeded/<name>/
   mutants.py eval <name> [--checks C01,C04] [--tier quick] [--budget S]
-                                          git apply in /repo, run the checks, ALWAYS `git -C /repo checkout -- .` afterwards;
+                                          git apply in a scratch worktree of /repo's HEAD, run the checks against it (VERIF_REPO/VERIF_OUTDIR), remove it;
                                           result appended to /verif/seeded/<name>/result.json
   mutants.py table                        print the catch table from all result.json files
 """
@@ -71,21 +71,30 @@ def do_import(src, name):
     return dst
 
 
-def evaluate(name, checks, tier, budget):
+def evaluate(name, checks, tier, budget, procs=0):
+    """Apply the change to a scratch worktree of /repo's HEAD (never to /repo itself), point the checks at it with
+    VERIF_REPO and send their evidence/replays to a scratch directory with VERIF_OUTDIR; remove both afterwards."""
     d = os.path.join(SEEDED, name)
     patch = os.path.join(d, "patch.diff")
-    if not repo_clean():
-        print("refusing: /repo has uncommitted changes")
-        sys.exit(2)
-    rc, out = sh("git -C /repo apply %s" % patch)
+    wt = "/tmp/evalwt-%s" % name
+    outdir = "/tmp/evalout-%s" % name
+    sh("git -C /repo worktree remove --force %s" % wt)
+    shutil.rmtree(wt, ignore_errors=True)
+    shutil.rmtree(outdir, ignore_errors=True)
+    rc, out = sh("git -C /repo worktree add --detach %s HEAD -q" % wt)
     if rc != 0:
-        print("patch does not apply:", out)
+        print("cannot create worktree:", out)
         sys.exit(2)
     results = []
     try:
+        rc, out = sh("git apply %s" % patch, cwd=wt)
+        if rc != 0:
+            print("patch does not apply:", out)
+            sys.exit(2)
+        os.makedirs(outdir)
         for c in checks:
             t0 = time.time()
-            cmd = "./check %s --tier %s" % (c, tier) + (" --budget %d" % budget if budget else "")
+            cmd = "VERIF_REPO=%s VERIF_OUTDIR=%s ./check %s --tier %s" % (wt, outdir, c, tier) + (" --budget %d" % budget if budget else "") + (" --procs %d" % procs if procs else "")
             rc, out = sh(cmd, cwd=V, timeout=7200)
             vio = [l for l in out.splitlines() if l.startswith("VIOLATION")]
             sigs = sorted(set(re.findall(r"violation (\S+):", out)))
@@ -97,33 +106,61 @@ def evaluate(name, checks, tier, budget):
                     shutil.copy(m.group(1), os.path.join(d, "replay-%s.json" % c))
             print(name, c, "exit", rc, "caught" if (rc == 1 and vio) else "MISSED" if rc == 0 else "INFRA", sigs[:4], flush=True)
     finally:
-        sh("git -C /repo checkout -- .")
-        # evidence and replays written while the change was applied do not describe the real tree
-        sh("git checkout -- evidence", cwd=V)
-        sh("git clean -fdq replays", cwd=V)
+        sh("git -C /repo worktree remove --force %s" % wt)
+        shutil.rmtree(wt, ignore_errors=True)
+        shutil.rmtree(outdir, ignore_errors=True)
     rp = os.path.join(d, "result.json")
     old = json.load(open(rp)) if os.path.exists(rp) else []
     old = [r for r in old if not any(r["check"] == n["check"] and r["tier"] == n["tier"] for n in results)] + results
     json.dump(old, open(rp, "w"), indent=1)
-    assert repo_clean()
 
 
 def table():
-    rows = []
+    """Write seeded/TABLE.md (one row per change and check run) and splice a per-change summary into DESIGN.md."""
+    rows, per = [], {}
     for name in sorted(os.listdir(SEEDED)):
         rp = os.path.join(SEEDED, name, "result.json")
         mp = os.path.join(SEEDED, name, "meta.json")
         if not os.path.exists(rp):
             continue
-        title = ""
+        title, trig = "", ""
         try:
-            title = json.load(open(mp)).get("title", "")
+            m = json.load(open(mp))
+            title, trig = m.get("title", ""), m.get("trigger", "")
         except Exception:
             pass
+        own = name.split("-")[0]
         for r in json.load(open(rp)):
-            rows.append((name, r["check"], r["tier"], "caught" if r["caught"] else ("missed" if r["exit"] == 0 else "infra"), ",".join(r["signatures"][:2]), title))
-    for r in rows:
-        print(" | ".join(r))
+            st = "caught" if r["caught"] else ("missed" if r["exit"] == 0 else "infra")
+            rows.append((name, r["check"], r["tier"], st, ", ".join(r["signatures"][:2]), title))
+            e = per.setdefault(name, {"title": title, "caught_by": [], "missed_by": [], "sigs": {}})
+            (e["caught_by"] if st == "caught" else e["missed_by"]).append(r["check"] + ("" if r["tier"] == "quick" else "(" + r["tier"] + ")"))
+            if st == "caught":
+                e["sigs"][r["check"]] = r["signatures"][0] if r["signatures"] else ""
+    with open(os.path.join(SEEDED, "TABLE.md"), "w") as f:
+        f.write("| change | check | tier | result | first signatures | what was changed |\n|---|---|---|---|---|---|\n")
+        for r in rows:
+            f.write("| " + " | ".join(x.replace("|", "/") for x in r) + " |\n")
+    lines = ["| change | caught by (signature) | not caught by | what was changed |", "|---|---|---|---|"]
+    ncaught = 0
+    for name in sorted(per):
+        e = per[name]
+        if e["caught_by"]:
+            ncaught += 1
+        cb = "; ".join("%s `%s`" % (c, e["sigs"].get(c.split("(")[0], "")) for c in e["caught_by"]) or "**none**"
+        lines.append("| %s | %s | %s | %s |" % (name, cb, ", ".join(e["missed_by"]) or "-", e["title"].replace("|", "/")))
+    lines.append("")
+    lines.append("%d of %d seeded changes are caught by at least one check at the quick tier unless marked otherwise." % (ncaught, len(per)))
+    dp = os.path.join(V, "DESIGN.md")
+    ds = open(dp).read()
+    b, e_ = "<!-- SEEDED_TABLE_BEGIN -->", "<!-- SEEDED_TABLE_END -->"
+    block = b + "\n" + "\n".join(lines) + "\n" + e_
+    if "SEEDED_TABLE_PLACEHOLDER" in ds:
+        ds = ds.replace("SEEDED_TABLE_PLACEHOLDER", block)
+    elif b in ds:
+        ds = ds[:ds.index(b)] + block + ds[ds.index(e_) + len(e_):]
+    open(dp, "w").write(ds)
+    print("%d rows, %d changes, %d caught" % (len(rows), len(per), ncaught))
 
 
 if __name__ == "__main__":
@@ -137,7 +174,7 @@ if __name__ == "__main__":
         print(do_import(a[1], a[2]))
     elif a[0] == "eval":
         name = a[1]
-        checks, tier, budget = None, "quick", 0
+        checks, tier, budget, procs = None, "quick", 0, 0
         i = 2
         while i < len(a):
             if a[i] == "--checks":
@@ -149,10 +186,13 @@ if __name__ == "__main__":
             elif a[i] == "--budget":
                 budget = int(a[i + 1])
                 i += 2
+            elif a[i] == "--procs":
+                procs = int(a[i + 1])
+                i += 2
             else:
                 i += 1
         if checks is None:
             checks = [name.split("-")[0]]
-        evaluate(name, checks, tier, budget)
+        evaluate(name, checks, tier, budget, procs)
     elif a[0] == "table":
         table()
